@@ -6,7 +6,7 @@ use crate::io::{Metered, ThrottledWriter};
 use crate::known;
 use crate::prog::{self, ProgParams, Program};
 use crate::refimpl::{self, Params};
-use crate::report::{Failure, Report, Stats};
+use crate::report::{Report, Stats};
 use crate::run::{Ctx, Tier};
 use crate::util::{self, PanicInfo};
 use mla::helpers::linear_extract;
@@ -15,7 +15,7 @@ use proptest::prelude::*;
 use serde::{Deserialize, Serialize};
 use serde_json::{json, Value};
 use std::collections::HashMap;
-use std::io::{Cursor, Read, Write};
+use std::io::{Cursor, Read};
 
 pub const CHECK: Check = Check { id: "C08", level: "fault_enumeration", flavours: &["scaled", "prod"], run, replay };
 
@@ -133,6 +133,9 @@ pub enum Mutation {
     DeepOffsets { n: u32, target: u8 },
     DropMarker,
     DupMarker,
+    /// re-compress the inner layer with a block size of BLOCK + 1 + extra: every brotli stream but the last
+    /// inflates to more than the documented block size
+    OverlongBlock { extra: u16 },
 }
 
 #[derive(Clone, Copy, Debug, PartialEq, Eq, Hash, Serialize, Deserialize)]
@@ -356,6 +359,13 @@ pub fn build_input(c: &Case) -> (Vec<u8>, Vec<x25519_dalek::StaticSecret>, Vec<S
                                 inner.extend_from_slice(&refimpl::write_footer(&entries));
                                 bytes = reencode_from_inner(&d, &inner);
                             }
+                        }
+                    }
+                    Mutation::OverlongBlock { extra } => {
+                        if d.layers & 2 != 0 {
+                            let pr = Params { chunk: CHUNK, block: BLOCK + 1 + *extra as usize };
+                            let comp = refimpl::compress_stream(&d.inner, pr, 1, 22);
+                            bytes = reencode_from_comp(&d, &comp);
                         }
                     }
                     Mutation::DropMarker | Mutation::DupMarker => {
@@ -610,6 +620,7 @@ fn mutation() -> impl Strategy<Value = Mutation> {
         1 => (prop_oneof![1u32..50, 1000u32..3000], any::<u8>()).prop_map(|(n, target)| Mutation::DeepOffsets { n, target }),
         1 => Just(Mutation::DropMarker),
         1 => Just(Mutation::DupMarker),
+        2 => (if SCALED { 0u16..2000 } else { 0u16..60000 }).prop_map(|extra| Mutation::OverlongBlock { extra }),
     ]
 }
 fn op() -> impl Strategy<Value = Op> {
@@ -665,22 +676,13 @@ pub fn case() -> impl Strategy<Value = Case> {
 
 // ------------------------------------------------------------ worker protocol
 
-/// worker: args = [seed, shard, cases]; prints "C <case json>" before each case and "R <report json>" at the end
+/// worker: args = [seed, shard, cases, deep cases]
 pub fn worker(args: &[String]) -> i32 {
     let seed: u64 = args.first().and_then(|s| s.parse().ok()).unwrap_or(0);
     let shard: u64 = args.get(1).and_then(|s| s.parse().ok()).unwrap_or(0);
     let cases: u32 = args.get(2).and_then(|s| s.parse().ok()).unwrap_or(100);
     let deep: u32 = args.get(3).and_then(|s| s.parse().ok()).unwrap_or(0);
-    let ctx = Ctx { prop: "C08".into(), tier: Tier::Quick, seed: util::mix(seed, "c08-worker", shard), threads: 1 };
-    let mut rep = Report::new("");
-    let out = std::io::stdout();
-    // typical main-thread stack: deep recursion must be noticed, not hidden by a huge stack
-    let logged = |c: &Case, st: &mut Stats| -> Result<(), String> {
-        {
-            let mut o = out.lock();
-            let _ = writeln!(o, "C {}", serde_json::to_string(c).unwrap_or_default());
-            let _ = o.flush();
-        }
+    let timed = |c: &Case, st: &mut Stats| -> Result<(), String> {
         let t = std::time::Instant::now();
         let r = oracle(c, st);
         if let Ok(ms) = std::env::var("VERIF_SLOW") {
@@ -692,139 +694,45 @@ pub fn worker(args: &[String]) -> i32 {
         }
         r
     };
-    explore_small_stack(&mut rep, &ctx, cases, &logged);
-    crate::run::explore_with_stack(&mut rep, &ctx, "deep-offset-tables", deep, deep_case, &logged, 8 << 20);
-    let r = json!({
-        "evaluations": rep.stats.evaluations,
-        "nontrivial": rep.stats.nontrivial.iter().collect::<Vec<_>>(),
-        "hist": rep.stats.hist,
-        "samples": rep.stats.samples,
-        "known_hits": rep.stats.known_hits,
-        "failure": rep.failures.first().map(|f| json!({"what": f.what, "case": f.case})),
-    });
-    let mut o = out.lock();
-    let _ = writeln!(o, "R {}", serde_json::to_string(&r).unwrap());
-    0
-}
-
-/// like run::explore with one shard, but on a thread with an 8 MiB stack
-fn explore_small_stack(rep: &mut Report, ctx: &Ctx, cases: u32, oracle: &(impl Fn(&Case, &mut Stats) -> Result<(), String> + Sync)) {
-    // run::explore spawns 64 MiB threads; here the point is a realistic stack, so call it from a scoped thread
-    // with threads = 1 and rely on proptest running the closure on that same thread
-    crate::run::explore_with_stack(rep, ctx, "scripts", cases, case, oracle, 8 << 20);
+    // 8 MiB stack: the usual main-thread stack, so that deep recursion is noticed
+    crate::run::worker_serve(
+        "C08",
+        seed,
+        shard,
+        &[("scripts", cases), ("deep-offset-tables", deep)],
+        |stage| if stage == "scripts" { case().boxed() } else { deep_case().boxed() },
+        timed,
+        8 << 20,
+    )
 }
 
 fn run(ctx: &Ctx) -> Report {
     let mut rep = Report::new(RULE);
     rep.assume("a forged offset table / index is re-encoded by refimpl under the archive's own key: the attacker model is 'any byte string', keys included");
-    rep.assume("worker processes run cases on an 8 MiB stack (the usual main-thread stack)");
+    rep.assume("worker processes run cases on an 8 MiB stack (the usual main-thread stack); a case that uses more than 60 s of CPU time without returning is reported as an unbounded loop (ordinary cases take milliseconds)");
     let total = if SCALED { ctx.n(100_000, 4_000_000) } else { ctx.n(8_000, 200_000) };
     let workers = ctx.threads.max(1);
-    let per = (total as usize).div_ceil(workers) as u32;
-    let t0 = std::time::Instant::now();
-    let exe = std::env::current_exe().expect("exe");
-    let children: Vec<_> = (0..workers)
-        .map(|i| {
-            std::process::Command::new(&exe)
-                .args(["worker", "c08", &ctx.seed.to_string(), &i.to_string(), &per.to_string(), if ctx.tier == Tier::Quick { "2" } else { "40" }])
-                .envs(std::env::vars())
-                .stdout(std::process::Stdio::piped())
-                .stderr(if std::env::var("VERIF_SLOW").is_ok() { std::process::Stdio::inherit() } else { std::process::Stdio::null() })
-                .spawn()
-        })
-        .collect();
-    let mut st = Stats::default();
-    let mut failure: Option<Failure> = None;
-    // drain every worker's pipe concurrently (a full pipe would serialise them)
-    let handles: Vec<_> = children.into_iter().map(|ch| std::thread::spawn(move || ch.and_then(|c| c.wait_with_output()))).collect();
-    for (i, h) in handles.into_iter().enumerate() {
-        let out = match h.join().unwrap_or_else(|_| Err(std::io::Error::new(std::io::ErrorKind::Other, "join"))) {
-            Ok(o) => o,
-            Err(e) => {
-                rep.inconclusive = Some(format!("cannot run worker {i}: {e}"));
-                continue;
-            }
-        };
-        let text = String::from_utf8_lossy(&out.stdout);
-        let mut last_case: Option<&str> = None;
-        let mut report: Option<Value> = None;
-        for l in text.lines() {
-            if let Some(c) = l.strip_prefix("C ") {
-                last_case = Some(c);
-            } else if let Some(r) = l.strip_prefix("R ") {
-                report = serde_json::from_str(r).ok();
-            }
-        }
-        match report {
-            Some(r) => {
-                st.evaluations += r["evaluations"].as_u64().unwrap_or(0);
-                for h in r["nontrivial"].as_array().into_iter().flatten() {
-                    if let Some(x) = h.as_u64() {
-                        st.nontrivial.insert(x);
-                    }
-                }
-                for (k, v) in r["hist"].as_object().into_iter().flatten() {
-                    *st.hist.entry(k.clone()).or_insert(0) += v.as_u64().unwrap_or(0);
-                }
-                for (k, v) in r["known_hits"].as_object().into_iter().flatten() {
-                    *st.known_hits.entry(k.clone()).or_insert(0) += v.as_u64().unwrap_or(0);
-                }
-                for s in r["samples"].as_array().into_iter().flatten() {
-                    if st.samples.len() < crate::report::MAX_SAMPLES {
-                        st.samples.push(s.clone());
-                    }
-                }
-                if failure.is_none() && !r["failure"].is_null() {
-                    failure = Some(Failure { stage: "scripts".into(), what: r["failure"]["what"].as_str().unwrap_or("").to_string(), case: r["failure"]["case"].clone() });
-                }
-            }
-            None => {
-                // the worker died: the in-flight case is the culprit
-                use std::os::unix::process::ExitStatusExt;
-                let how = match out.status.signal() {
-                    Some(11) => "SIGSEGV (stack overflow or invalid access)".to_string(),
-                    Some(6) => "SIGABRT (abort)".to_string(),
-                    Some(9) => "SIGKILL (out of memory?)".to_string(),
-                    Some(s) => format!("signal {s}"),
-                    None => format!("exit status {:?}", out.status.code()),
-                };
-                let case: Value = last_case.and_then(|c| serde_json::from_str(c).ok()).unwrap_or(Value::Null);
-                if failure.is_none() {
-                    failure = Some(Failure { stage: "scripts".into(), what: format!("the worker process died with {how} while executing this case"), case });
-                }
-            }
-        }
-    }
-    rep.stage_done("scripts", st, t0.elapsed().as_secs_f64(), failure);
+    let per = (total as usize).div_ceil(workers);
+    let deep = if ctx.tier == Tier::Quick { "2" } else { "40" };
+    crate::run::workers_collect(&mut rep, ctx, "scripts", "c08", workers, &[per.to_string(), deep.to_string()]);
     for (sig, n) in rep.stats.known_hits.clone() {
         rep.known_lines.push(format!("panic signature {sig} (hit {n} times)"));
     }
     rep
 }
 
-fn replay(_ctx: &Ctx, _stage: &str, case: &Value) -> Result<(), String> {
-    let c: Case = serde_json::from_value(case.clone()).map_err(|e| format!("HARNESS: bad replay case: {e}"))?;
-    // run in a child so that a crash is observed, not suffered
-    if std::env::var("VERIF_C08_INPROC").is_ok() {
+fn replay(_ctx: &Ctx, stage: &str, case: &Value) -> Result<(), String> {
+    if let Some(t) = stage.strip_prefix("fuzz:") {
+        if std::env::var("VERIF_INPROC").is_ok() {
+            let data = hex::decode(case["hex"].as_str().unwrap_or("")).map_err(|e| format!("HARNESS: {e}"))?;
+            return crate::fuzzing::by_name(t, &data);
+        }
+        return crate::run::replay_in_child("C08", stage, case);
+    }
+    // run in a child so that a crash or a hang is observed, not suffered
+    if std::env::var("VERIF_INPROC").is_ok() || std::env::var("VERIF_C08_INPROC").is_ok() {
+        let c: Case = serde_json::from_value(case.clone()).map_err(|e| format!("HARNESS: bad replay case: {e}"))?;
         return oracle(&c, &mut Stats::default());
     }
-    let exe = std::env::current_exe().map_err(|e| format!("HARNESS: {e}"))?;
-    let tmp = format!("/verif/.work/c08-replay-{}.json", std::process::id());
-    std::fs::create_dir_all("/verif/.work").ok();
-    std::fs::write(&tmp, json!({"stage": "scripts", "case": case}).to_string()).map_err(|e| format!("HARNESS: {e}"))?;
-    let o = std::process::Command::new(exe).args(["C08", "--replay", &tmp]).env("VERIF_C08_INPROC", "1").output().map_err(|e| format!("HARNESS: {e}"))?;
-    std::fs::remove_file(&tmp).ok();
-    use std::os::unix::process::ExitStatusExt;
-    if let Some(s) = o.status.signal() {
-        return Err(format!("the process died with signal {s} while executing the case"));
-    }
-    match o.status.code() {
-        Some(0) => Ok(()),
-        Some(1) => {
-            let t = String::from_utf8_lossy(&o.stdout);
-            let w = t.lines().find_map(|l| l.split("what=").nth(1)).unwrap_or("violation").to_string();
-            Err(w)
-        }
-        c => Err(format!("HARNESS: replay child ended with {c:?}")),
-    }
+    crate::run::replay_in_child("C08", stage, case)
 }
